@@ -419,10 +419,11 @@ def make_jds(sc):
     numpy int64 scalars (degrees that come out of numpy code), or the whole sequence as a list of numpy rows."""
     if sc["rows"] == "tuple":
         return [tuple(r) for r in sc["jds"]]
-    if sc["rows"] == "np_int64":
+    small = all(max(r, default=0) < 2 ** 31 for r in sc["jds"])         # column sums of int64 degrees must stay far below 2^63
+    if sc["rows"] == "np_int64" and small:
         import numpy as np
         return [tuple(np.int64(x) for x in r) for r in sc["jds"]]
-    if sc["rows"] == "np_array" and sc["jds"] and all(max(r, default=0) < 2 ** 62 for r in sc["jds"]):
+    if sc["rows"] == "np_array" and sc["jds"] and small:
         import numpy as np
         return [np.array(r, dtype=np.int64) for r in sc["jds"]]
     return [list(r) for r in sc["jds"]]
